@@ -57,8 +57,8 @@ var (
 
 // GenRows draws 0..max rows with ids 1..n over the tiny domains.
 func GenRows(rt *rapid.T, max int) []Row {
-	x := g{rt}
-	n := rapid.IntRange(0, max).Draw(rt, "rows")
+	x := newG(rt)
+	n := x.n(max + 1)
 	rows := make([]Row, n)
 	for i := range rows {
 		rows[i] = GenRow(x, i+1)
@@ -69,11 +69,11 @@ func GenRows(rt *rapid.T, max int) []Row {
 // GenRow draws the column values of one row.
 func GenRow(x g, id int) Row {
 	r := Row{ID: id, Ca: intDom[x.n(4)], Cb: intDom[x.n(4)], Cs: textDom[x.n(4)]}
-	if !x.pct(40) {
+	if !x.pct(35) {
 		v := intDom[x.n(4)]
 		r.Cn = &v
 	}
-	if !x.pct(40) {
+	if !x.pct(35) {
 		v := textDom[x.n(4)]
 		r.Ct = &v
 	}
@@ -81,7 +81,7 @@ func GenRow(x g, id int) Row {
 }
 
 // G exposes the draw helper to property packages.
-func G(rt *rapid.T) g { return g{rt} }
+func G(rt *rapid.T) g { return newG(rt) }
 
 // ---- trees -------------------------------------------------------------------------------------
 
@@ -94,7 +94,7 @@ func genVal(x g, col string) Val {
 
 func genAtom(x g, cfg Cfg) *Node {
 	col := DataCols[x.n(len(DataCols))]
-	ops := []Op{OpEq, OpEq, OpNe, OpLt, OpGt, OpIn}
+	ops := []Op{OpEq, OpEq, OpNe, OpNe, OpLt, OpGt, OpIn, OpIn}
 	if IsText(col) {
 		ops = append(ops, OpLike, OpLike)
 	}
@@ -129,7 +129,7 @@ func genList(x g, col string, cfg Cfg) []Val {
 }
 
 // GenTree draws a condition tree of at most the given depth.
-func GenTree(rt *rapid.T, depth int, cfg Cfg) *Node { return genTree(g{rt}, depth, cfg) }
+func GenTree(rt *rapid.T, depth int, cfg Cfg) *Node { return genTree(newG(rt), depth, cfg) }
 
 func genTree(x g, depth int, cfg Cfg) *Node {
 	if depth <= 0 {
@@ -325,7 +325,7 @@ func genPKSlice(x g, cfg Cfg) *Unit {
 }
 
 // GenUnit draws one unit. level is the grouped-builder nesting level.
-func GenUnit(rt *rapid.T, cfg Cfg, level int) *Unit { return genUnit(g{rt}, cfg, level) }
+func GenUnit(rt *rapid.T, cfg Cfg, level int) *Unit { return genUnit(newG(rt), cfg, level) }
 
 func genUnit(x g, cfg Cfg, level int) *Unit {
 	for {
@@ -367,7 +367,9 @@ func genUnit(x g, cfg Cfg, level int) *Unit {
 // GenCalls draws a sequence of n Where/Not/Or calls in the property's domain:
 // the first effective call is not Or (unless cfg.LeadingOr), Not is used only
 // on units for which NotOK holds.
-func GenCalls(rt *rapid.T, cfg Cfg, n int) []Call { return genCalls(g{rt}, cfg, n, 0, cfg.LeadingOr) }
+func GenCalls(rt *rapid.T, cfg Cfg, n int) []Call {
+	return genCalls(newG(rt), cfg, n, 0, cfg.LeadingOr)
+}
 
 func genCalls(x g, cfg Cfg, n, level int, leadingOr bool) []Call {
 	calls := make([]Call, 0, n)
@@ -375,9 +377,9 @@ func genCalls(x g, cfg Cfg, n, level int, leadingOr bool) []Call {
 	for i := 0; i < n; i++ {
 		var verb Verb
 		switch k := x.n(100); {
-		case k < 45:
+		case k < 40:
 			verb = VWhere
-		case k < 70:
+		case k < 65:
 			verb = VNot
 		default:
 			verb = VOr
@@ -407,7 +409,7 @@ func genCalls(x g, cfg Cfg, n, level int, leadingOr bool) []Call {
 // GenInline draws an inline finisher condition (any unit form, plus a bare
 // primary key value).
 func GenInline(rt *rapid.T, cfg Cfg) *Unit {
-	x := g{rt}
+	x := newG(rt)
 	for {
 		if !cfg.NoPK && x.pct(12) {
 			id := 1 + x.n(cfg.MaxID+1)
